@@ -22,6 +22,7 @@ type term struct {
 
 	supp     []int
 	suppDone bool
+	size     int // number of distinct nodes, capped (0 = not computed)
 }
 
 type termTable struct {
@@ -803,4 +804,33 @@ func (tt *termTable) support(t *term) []int {
 		t.supp = set
 	}
 	return t.supp
+}
+
+// sizeOf returns the number of nodes of t's DAG, capped at limit+1.
+func (tt *termTable) sizeOf(t *term, limit int) int {
+	if t.size != 0 {
+		return t.size
+	}
+	seen := map[int]bool{}
+	var walk func(x *term) bool
+	n := 0
+	walk = func(x *term) bool {
+		if seen[x.id] {
+			return true
+		}
+		seen[x.id] = true
+		n++
+		if n > limit {
+			return false
+		}
+		for _, a := range x.args {
+			if !walk(a) {
+				return false
+			}
+		}
+		return true
+	}
+	walk(t)
+	t.size = n
+	return n
 }
